@@ -43,6 +43,31 @@ TRANSSCHED_REG = _ts("trans_sched_nothing_missing", "trans_ScheduleJob", "trans_
                      "trans_GetJobKeys", "C09_schedule_error_unchanged_trans", "C09_delete_error_unchanged_trans", "C09_pause_error_unchanged_trans",
                      "C09_resume_error_unchanged_trans", "C09_delete_error_iff_trans")
 
+# the TEXT level of the cron parser, translated by harness/cmd/gotolean-parse -> Generated/TransParse.lean
+TRANSPARSE = [("QuartzModel.Theorems.TransParse", "TransParse." + t) for t in [
+    "trans_parse_nothing_missing", "trans_parse_data", "trans_normalize", "trans_translateLiteral", "trans_translateLiterals", "trans_extractStepValues",
+    "trans_extractRangeValues", "trans_parseRangeField", "trans_parseStepField", "trans_parseListField", "trans_parseField", "trans_parseDayOfMonthField",
+    "trans_parseDayOfWeekField", "trans_buildCronField", "trans_parseCronExpression", "trans_trimCronExpression", "trans_ValidateCronExpression",
+    "trans_NewCronTriggerWithLoc", "trans_NewCronTrigger", "trans_validate_accepts", "trans_validate_rejects", "trans_errors_wrap_ErrCronParse",
+    "parse_wellFormed_trans", "C07_rejects_field_count_trans", "C07_rejects_both_days_trans", "C07_macros_trans", "C07_missing_year_trans"]]
+# end to end: translated NewCronTrigger followed by translated NextFireTime = Cron.newTrigger followed by Cron.nextFire, for every expression string
+TRANSE2E = [("QuartzModel.Theorems.TransParse", "TransParse.trans_newTrigger_nextFire"), ("QuartzModel.Theorems.TransParse", "TransParse.trans_newTrigger_nextFire_eq")]
+# one iteration of the execution loop, translated by harness/cmd/gotolean-loop -> Generated/TransLoop.lean
+def _tl(*names):
+    return [("QuartzModel.Theorems.TransLoop", "TransLoop." + t) for t in names]
+TRANSLOOP_C15 = _tl("trans_loop_nothing_missing", "trans_calculateNextTick", "trans_arm", "trans_executeAndReschedule", "trans_iter_core", "trans_iter", "trans_iter_facts",
+                    "facts_shape_eq", "trans_iter_exit", "trans_init", "trans_runLoop", "trans_runQ", "C15_backoff_step_trans", "C15_backoff_trans",
+                    "C15_deadline_not_postponed_trans", "C15_no_double_fire_trans")
+TRANSLOOP_C05 = _tl("trans_loop_nothing_missing", "trans_Reset", "trans_iter_interrupt_use", "trans_iter_exit")
+# executeWithRetries, the dispatch switch and the workers, translated by harness/cmd/gotolean-retry -> Generated/TransRetry.lean
+def _tr(*names):
+    return [("QuartzModel.Theorems.TransRetry", "TransRetry." + t) for t in names]
+TRANSRETRY_C13 = _tr("trans_retry_nothing_missing", "trans_retry_callers", "trans_executeWithRetries", "trans_runRetries", "trans_executeWithRetries_any", "C13_attempts_trans",
+                     "C13_cancel_stops_trans", "C13_panic_ends_sequence_trans", "C13_interval_trans", "C13_attempts_bound_any", "C13_attempts_structure_any",
+                     "C13_panic_ends_sequence_any", "C13_interval_any")
+TRANSRETRY_C12 = _tr("trans_retry_nothing_missing", "trans_dispatch_arm", "trans_dispatch_inline", "trans_dispatch_handoff", "trans_dispatch_spawn", "trans_spawned_body",
+                     "trans_dispatch_invalid", "trans_startWorkers", "trans_dispatchCap", "trans_worker_rounds")
+
 ODO = [("QuartzModel.Proofs.Odometer", t) for t in ["Odo.findForward_spec", "Odo.loop_fuel", "Odo.μ6_measure"]]
 
 # the dispatch step and the API calls are atomic with respect to each other because of the queue lock: its facts are obligations
@@ -73,14 +98,14 @@ THEOREMS = {
     # (a job popped before its time must go back with its fire time untouched: the dispatch step's facts are obligations here too)
     # "the only permitted delays are a job executing in blocking mode and a full worker pool": which arm of the dispatch switch takes a fetched job
     # (and that startWorkers agrees with it) is the business of the C12 facts
-    "C05": [("QuartzModel.Theorems.C12", "Pool.C12_facts")] + TIMERFACTS + [t for t in SCHEDFACTS if t[0] == "QuartzModel.Theorems.SchedFacts"] + [("QuartzModel.Theorems.MissingWakeup", "Facts.missing_none_wakeup"),
+    "C05": TRANSLOOP_C05 + [("QuartzModel.Theorems.C12", "Pool.C12_facts")] + TIMERFACTS + [t for t in SCHEDFACTS if t[0] == "QuartzModel.Theorems.SchedFacts"] + [("QuartzModel.Theorems.MissingWakeup", "Facts.missing_none_wakeup"),
                          ("QuartzModel.Theorems.RestartFacts", "Facts.loop_reschedule_sends_token")] + [("QuartzModel.Theorems.C05", "Wakeup." + t) for t in [
         "C05_facts_wf", "C05_invariant", "C05_parked_correct", "C05_never_lost", "C05_token_rereads", "C05_send_never_blocks", "C05_holds",
         "C05_lost_unbuffered", "C05_lost_without_send", "C05_lost_send_before", "C05_lost_without_reread", "C05_blocking_send_deadlocks"]] +
            [("QuartzModel.Proofs.WakeupLemmas", "Wakeup.inv_step"), ("QuartzModel.Proofs.WakeupLemmas", "Wakeup.inv_run")] +
            # a fire time beyond the largest representable time does not get ahead of the due jobs (the loop neither spins nor starves them)
            [("QuartzModel.Theorems.C04", "Sched." + t) for t in ["C04_saturates", "C04_saturated_not_due", "C04_saturated_never_spins"]],
-    "C15": TIMERFACTS + WAKEFACTS + [("QuartzModel.Theorems.MissingFaults", "Facts.missing_none_faults")] + [("QuartzModel.Theorems.C15", "Faults." + t) for t in [
+    "C15": TRANSLOOP_C15 + TIMERFACTS + WAKEFACTS + [("QuartzModel.Theorems.MissingFaults", "Facts.missing_none_faults")] + [("QuartzModel.Theorems.C15", "Faults." + t) for t in [
         "C15_facts_wf", "C15_facts_api", "C15_facts_dispatch", "C15_backoff_step", "C15_backoff", "C15_holds", "C15_backoff_fails_without_flag",
         "C15_interrupts_postpone_recovery", "C15_api_propagates", "C15_api_nil_only_if_all_ok", "C15_dispatch_after_pop", "C15_one_push_per_pop",
         "C15_iter_calls", "C15_no_double_fire", "C15_deadline_not_postponed", "C15_recovers",
@@ -101,13 +126,13 @@ THEOREMS = {
         "C18_facts", "C18_facts_output", "C18_facts_slog", "C18_filter", "C18_filter_line", "C18_off_silences_all", "C18_trace_emits_all",
         "C18_level_order", "C18_format", "C18_format_indexed", "C18_format_shapes", "C18_output_line", "C18_label", "C18_complete",
         "C18_mutex", "C18_label_race", "C18_label_race_locked", "C18_noop", "C18_slog_level_map", "C18_slog_attrs"]],
-    "C13": [("QuartzModel.Theorems.C13", "Sched.Retry." + t) for t in [
+    "C13": TRANSRETRY_C13 + [("QuartzModel.Theorems.C13", "Sched.Retry." + t) for t in [
         "C13_facts", "C13_attempts", "C13_attempts_general", "C13_attempts_structure", "C13_stops_on_success", "C13_cancel_stops",
         "C13_cancel_bound", "C13_cancelled_last", "C13_interval", "C13_interval_time", "C13_panic_ends_sequence", "C13_recovered_iff", "C13_returns"]],
     "C17": [("QuartzModel.Theorems.C17", "Jobs.Isolated." + t) for t in [
         "C17_facts", "C17_flag_iff", "C17_mutex", "C17_mutex_running", "C17_fail_fast", "C17_busy_only_if_rejected", "C17_reopens",
         "C17_admitted_when_free", "C17_reopens_progress", "C17_reopens_fails_without_defer", "C17_rejected_for_ever_without_defer"]],
-    "C12": [("QuartzModel.Theorems.C12", "Pool." + t) for t in [
+    "C12": TRANSRETRY_C12 + [("QuartzModel.Theorems.C12", "Pool." + t) for t in [
         "C12_facts", "C12_blocking_le_one", "C12_blocking_ignores_worker_limit", "C12_pool_le_n", "C12_pool_reaches_n",
         "C12_pool_full_blocks", "C12_unbounded_loop_never_waits", "C12_unbounded_no_bound",
         "C12_blocking_le_one_code", "C12_pool_le_n_code", "C12_unbounded_loop_never_waits_code",
@@ -158,15 +183,15 @@ THEOREMS = {
            [("QuartzModel.Concurrency.Lock", "Lock.linearizable")] +
            # the queue model IS the code (container/heap of the toolchain included): translated definitions = hand-written model, C11 theorems transferred
            TRANSQUEUE,
-    "C01": FACTS + TRANS + TRANSCRON_LOOP + _tc("C01_sound_transCron") + ODO + [("QuartzModel.Theorems.C01", "Cron.C01_sound"), ("QuartzModel.Theorems.CronCode", "Cron.C01_sound_code"),
+    "C01": FACTS + TRANS + TRANSE2E + TRANSCRON_LOOP + _tc("C01_sound_transCron") + ODO + [("QuartzModel.Theorems.C01", "Cron.C01_sound"), ("QuartzModel.Theorems.CronCode", "Cron.C01_sound_code"),
                           ("QuartzModel.Proofs.CronAssembly", "Cron.allValid_iff_matches"), ("QuartzModel.Proofs.DaySpec", "Cron.dayValid_iff"),
                           ("QuartzModel.Proofs.CalendarLemmas", "Cal.Civil.ofSeconds_toSeconds"), ("QuartzModel.Proofs.CalendarLemmas", "Cal.Civil.toSeconds_lt_iff")],
-    "C02": FACTS + TRANS + TRANSCRON_LOOP + _tc("C02_minimal_transCron") + ODO + [("QuartzModel.Theorems.C02", "Cron." + t) for t in ["C02_minimal", "C02_expired_iff", "C02_chain"]] +
+    "C02": FACTS + TRANS + TRANSE2E + TRANSCRON_LOOP + _tc("C02_minimal_transCron") + ODO + [("QuartzModel.Theorems.C02", "Cron." + t) for t in ["C02_minimal", "C02_expired_iff", "C02_chain"]] +
            [("QuartzModel.Theorems.CronCode", "Cron.C02_minimal_code"), ("QuartzModel.Theorems.CronCode", "Cron.C02_expired_iff_code"),
             ("QuartzModel.Proofs.CronAssembly", "Cron.csmNext_spec_some"), ("QuartzModel.Proofs.CronAssembly", "Cron.csmNext_spec_none")],
     "C06": FACTS + TRANS + TRANSCRON_LOOP + _tc("C06_total_transCron") + ODO + [("QuartzModel.Theorems.C06", "Cron." + t) for t in ["C06_total", "nextFire_ne_outOfFuel", "C06_single_pass"]] +
            [("QuartzModel.Theorems.CronCode", "Cron.C06_total_code"), ("QuartzModel.Proofs.CronAssembly", "Cron.csmNext_ne_none")],
-    "C07": FACTS + TRANSCRON_C07 + [("QuartzModel.Theorems.C07", "Cron." + t) for t in [
+    "C07": FACTS + TRANSCRON_C07 + TRANSPARSE + TRANSE2E + [("QuartzModel.Theorems.C07", "Cron." + t) for t in [
         "parse_wellFormed", "newTrigger_wellFormed", "parseField_inRange", "parseField_no_special", "parseDom_shape",
         "parseDow_shape", "C07_rejects_field_count", "C07_rejects_both_days", "C07_rejects_bad_step", "C07_macros",
         "C07_whitespace", "C07_missing_year", "normalize_glossary", "normalize_month", "normalize_day", "atoi_render",
